@@ -281,6 +281,18 @@ def stores_reference(repo: Repo, cls_name: str, rel: str) -> bool:
     return False
 
 
+def _mixture_is_container(repo: Repo) -> bool:
+    """MixedStabilizer keeps a list of (p, tableau) pairs handed to it (isinstance(data, list) branch storing the list)."""
+    ci = repo.cls("MixedStabilizer", "graphiq/backends/stabilizer/state.py")
+    init = ci.methods().get("__init__")
+    if init is None:
+        return False
+    for n in ast.walk(init):
+        if isinstance(n, ast.If) and "isinstance(data, list)" in norm(n.test):
+            return True
+    return False
+
+
 def rule_alias_into_state(ctx: Ctx) -> None:
     repo = ctx.repo
     m = repo.module(CBASE)
@@ -301,6 +313,15 @@ def rule_alias_into_state(ctx: Ctx) -> None:
         roots = {x.id for x in ast.walk(v) if isinstance(x, ast.Name)}
         param_derived = bool(roots & set(ps[2:])) and isinstance(v, ast.Attribute)
         copied = isinstance(v, ast.Call) and call_attr(v) in ("copy", "deepcopy")
+        shallow = isinstance(v, ast.Call) and call_attr(v) == "copy" and isinstance(v.func, ast.Attribute) \
+            and dotted(v.func.value) not in ("copy",) and bool(roots & set(ps[2:]))
+        if shallow and _mixture_is_container(repo):
+            ctx.fail("effect.alias-into-state", m, a,
+                     f"`{short(a)}` copies the caller's data with `.copy()`; for the mixed stabilizer representation the data is a *list* of "
+                     f"(probability, tableau) pairs, so this copy is shallow: the tableaux are still shared and the in-place gate updates "
+                     f"change the caller's initial state (use copy.deepcopy)",
+                     func="CompilerBase.compile", construct=f"compile: {norm(a.targets[0])} = {norm(v)} (shallow copy of a container)")
+            continue
         if param_derived and not copied and sr:
             ctx.fail("effect.alias-into-state", m, a,
                      f"`{short(a)}` hands the caller's own data object to the working QuantumState; {sr[0]}.__init__ keeps the reference "
